@@ -44,7 +44,9 @@ REACH = {t: ["co_value_cross_running", "co_raise_cross_running", "plain_none_cro
              "queued_while_not_running_not_started", "queued_while_not_running_between_run_phases",
              "fire_and_forget_executed", "handed_over_before_stop_running", "handed_over_before_stop_queued",
              "proxy_is_sole_holder_of_object", "slow_unwind_relayed", "slow_unwind_relayed_after_1s",
-             "plain_falsy_result_objected", "owner_loop_generations"] for t in ("quick", "thorough")}
+             "plain_falsy_result_objected", "owner_loop_generations",
+             "uart_application_callbacks_on_owner_thread", "uart_gateway_calls_on_serial_thread", "uart_attribute_refused",
+             "uart_call_after_close_dropped"] for t in ("quick", "thorough")}
 SHARD_TIMEOUT = {"quick": 300, "thorough": 900}
 KINDS = ["co_value", "co_raise", "plain_none", "plain_value", "plain_raise", "attr"]
 
@@ -175,7 +177,196 @@ class YieldInjector:
 def shards(tier, seed):
     n = 6 if tier == "quick" else 24
     return [{"seed": seed * 100 + i, "threads": 2 + i % 3, "rounds": 2 if tier == "quick" else 4,
-             "burst": 150 if tier == "quick" else 600, "p": [0.02, 0.1, 0.3][i % 3]} for i in range(n)]
+             "burst": 150 if tier == "quick" else 600, "p": [0.02, 0.1, 0.3][i % 3]} for i in range(n)] + \
+        [{"part": "uart", "seed": seed * 100 + 90 + j, "rounds": 6 if tier == "quick" else 30, "debuglog": bool(j)} for j in range(2)]
+
+
+def run_uart(desc) -> Acc:
+    """The proxies where bellows itself puts them: bellows.uart.connect(use_thread=True) wraps the application in
+    a proxy bound to the caller's loop and hands back the gateway in a proxy bound to the serial thread's loop.
+    Frames, an ERROR frame and a connection loss are produced inside the serial thread; commands are issued
+    from the caller's loop.  Every body must run on its object's own thread; private / non-callable attributes
+    are refused; after the serial thread's loop is closed calls are dropped."""
+    import zigpy.serial
+
+    import bellows.uart as uart
+    from .. import ashref as R
+    from .. import ncpsim
+
+    logmode.apply(desc)
+    acc = Acc()
+    rnd = random.Random(desc["seed"])
+    main_ident = threading.get_ident()
+
+    class App:
+        def __init__(self):
+            self.events = []
+
+        def _rec(self, what, arg):
+            try:
+                loop = asyncio.get_running_loop()
+            except RuntimeError:
+                loop = None
+            self.events.append((what, arg, threading.get_ident(), loop))
+
+        def enter_failed_state(self, code):
+            self._rec("failed", int(code))
+
+        def connection_lost(self, exc):
+            self._rec("lost", type(exc).__name__ if exc is not None else None)
+
+        def frame_received(self, data):
+            self._rec("frame", bytes(data))
+
+    class FakeTr:
+        def __init__(self):
+            self.writes = []
+            self.closing = False
+
+        def write(self, data):
+            self.writes.append((bytes(data), threading.get_ident()))
+
+        def is_closing(self):
+            return self.closing
+
+        def close(self):
+            self.closing = True
+
+    async def one(rno):
+        box = {}
+        saved = zigpy.serial.create_serial_connection
+
+        async def fake_serial(loop, protocol_factory, **kw):
+            proto = protocol_factory()
+            tr = FakeTr()
+            box.update(loop=loop, proto=proto, tr=tr, ident=threading.get_ident())
+            loop.call_soon(proto.connection_made, tr)
+            return tr, proto
+
+        zigpy.serial.create_serial_connection = fake_serial
+        app = App()
+        my_loop = asyncio.get_running_loop()
+        try:
+            gw = await uart.connect(ncpsim.device_config("/dev/ttyVERIF"), app, use_thread=True)
+        finally:
+            zigpy.serial.create_serial_connection = saved
+        case = {"part": "uart", "round": rno, "seed": desc["seed"]}
+        acc.case()
+        if box.get("ident") in (None, main_ident):
+            acc.violation("C20/uart/serial-port-opened-on-the-callers-thread", "uart.connect(use_thread=True) opened the port on the caller's thread", case)
+            return
+        wl = box["loop"]
+
+        def in_worker(fn, *a):
+            wl.call_soon_threadsafe(fn, *a)
+
+        # 1. NCP -> application: produced in the serial thread, must be executed on the caller's (= the application's) thread
+        in_worker(box["proto"].data_received, R.encode_rstack(0x0B))
+        n_frames = rnd.choice([1, 3, 8])
+        payloads = [b"\x01\x80\x00" + bytes([rno, k]) + rnd.randbytes(rnd.choice([0, 3, 40])) for k in range(n_frames)]
+        for k, pl in enumerate(payloads):
+            in_worker(box["proto"].data_received, R.encode_data(k % 8, 0, 0, pl))
+        for _ in range(4000):  # up to 20 s of real time on a loaded machine; normally a few ms
+            if sum(1 for e in app.events if e[0] == "frame") >= n_frames:
+                break
+            await asyncio.sleep(0.005)
+        got = [e for e in app.events if e[0] == "frame"]
+        if [e[1] for e in got] != payloads:
+            acc.violation("C20/uart/frames-not-relayed-to-the-application",
+                          f"frames handed up in the serial thread: {[p.hex() for p in payloads]}; the application received {[e[1].hex() for e in got]} within 20 s", case)
+        for e in app.events:
+            if e[2] != main_ident or e[3] is not my_loop:
+                acc.violation("C20/uart/application-called-on-the-serial-thread",
+                              f"application.{e[0]} ran on thread {e[2]} (the application's own is {main_ident}; serial thread {box['ident']})", case)
+                break
+        else:
+            acc.hit("uart_application_callbacks_on_owner_thread", len(app.events))
+        # 2. caller -> gateway: coroutine method, result relayed, body on the serial thread
+        nw = len(box["tr"].writes)
+        call = asyncio.ensure_future(gw.send_data(b"\x00\x00\x02"))  # nobody acknowledges: it stays pending, that is fine
+        for _ in range(4000):
+            if len(box["tr"].writes) > nw or call.done():
+                break
+            await asyncio.sleep(0.005)
+        r = "pending" if not call.done() else (call.exception() if not call.cancelled() else "cancelled")
+        call.cancel()
+        wr = box["tr"].writes[nw:]
+        if not wr:
+            acc.violation("C20/uart/gateway-call-not-executed", f"gw.send_data() from the caller's loop wrote nothing (ended with {r!r})", case)
+        elif any(t_ != box["ident"] for _, t_ in wr):
+            acc.violation("C20/uart/gateway-called-on-the-callers-thread", "gw.send_data() wrote to the port from a thread other than the serial thread", case)
+        else:
+            acc.hit("uart_gateway_calls_on_serial_thread")
+        # 3. non-callable / private attributes are refused, not handed out
+        for name in ("_transport", "_application", "_reset_future"):
+            try:
+                v = getattr(gw, name)
+                if callable(v):
+                    continue  # a wrapper: fine, it refuses when called (checked by the probe shards)
+                acc.violation("C20/uart/attribute-handed-out", f"gateway proxy handed out non-callable attribute {name} = {type(v).__name__}", case)
+            except TypeError:
+                acc.hit("uart_attribute_refused")
+            except AttributeError:
+                pass
+        # 4. failure paths: ERROR frame, then connection loss - both must reach the application on its own thread
+        n0 = len(app.events)
+        code = rnd.choice([0x51, 0x80, 0x02])
+        in_worker(box["proto"].data_received, R.encode_error(code))
+        await asyncio.sleep(0.05)
+        kind = rnd.choice(["error", "eof"])
+
+        def lose():
+            box["tr"].closing = True
+            if kind == "eof":
+                box["proto"].eof_received()
+            else:
+                box["proto"].connection_lost(OSError("serial port gone"))
+
+        in_worker(lose)
+        for _ in range(4000):  # up to 20 s of real time on a loaded machine; normally a few ms
+            if any(e[0] == "lost" for e in app.events[n0:]):
+                break
+            await asyncio.sleep(0.005)
+        ev = app.events[n0:]
+        if not any(e[0] == "failed" and e[1] == code for e in ev):
+            acc.violation("C20/uart/failure-not-relayed", f"ERROR({code:#x}) in the serial thread never reached application.enter_failed_state: {[(e[0], e[1]) for e in ev]}", case)
+        if not any(e[0] == "lost" for e in ev):
+            acc.violation("C20/uart/loss-not-relayed", f"connection loss ({kind}) in the serial thread never reached application.connection_lost", case)
+        for e in ev:
+            if e[2] != main_ident:
+                acc.violation("C20/uart/application-called-on-the-serial-thread", f"application.{e[0]} ran on thread {e[2]}, not the application's own", case)
+                break
+        # 5. the serial thread ends after the loss; once its loop is closed, calls are dropped: no execution, no blocking
+        for _ in range(4000):
+            if wl.is_closed():
+                break
+            await asyncio.sleep(0.005)
+        if wl.is_closed():
+            nw = len(box["tr"].writes)
+            t0 = time.monotonic()
+            try:
+                r = gw.send_data(b"\x01\x00\x02")  # dropped calls hand back nothing at all (not even an awaitable)
+                if inspect.isawaitable(r):
+                    r = await asyncio.wait_for(r, 20.0)
+                if r is not None or len(box["tr"].writes) != nw:
+                    acc.violation("C20/uart/call-after-close-executed", f"gw.send_data() after the serial loop was closed returned {r!r} / wrote {len(box['tr'].writes) - nw} frame(s)", case)
+                else:
+                    acc.hit("uart_call_after_close_dropped")
+            except asyncio.TimeoutError:
+                acc.violation("C20/uart/call-after-close-blocked", "gw.send_data() after the serial loop was closed was still pending 20 s later", case)
+            except BaseException as ex:  # noqa: BLE001
+                acc.violation("C20/uart/call-after-close-raised", f"gw.send_data() after the serial loop was closed raised {ex!r} after {time.monotonic() - t0:.2f}s", case)
+        else:
+            acc.ev("uart_serial_loop_not_closed_within_20s")
+        acc.nontrivial(("uart", n_frames, kind, code))
+
+    async def main():
+        for r in range(desc["rounds"]):
+            await one(r)
+
+    asyncio.run(main())
+    acc.sample({"part": "uart", "rounds": desc["rounds"]})
+    return acc
 
 
 def run_shard(desc) -> Acc:
@@ -183,6 +374,8 @@ def run_shard(desc) -> Acc:
 
     import bellows.thread as bt
 
+    if desc.get("part") == "uart":
+        return run_uart(desc)
     logmode.apply(desc)
     acc = Acc()
     sys.setswitchinterval(1e-5)
